@@ -223,7 +223,11 @@ class HttpWebServerPlugin(HttpProtocolHandlerPlugin):
                 )
             self.pipeline_request.parse(raw)
             if self.pipeline_request.is_complete:
-                self.route.handle_request(self.pipeline_request)
+                # Route every request of the connection by its own path,
+                # fall back to the route of the first request
+                self._route_for(
+                    self.pipeline_request.path or b'/',
+                ).handle_request(self.pipeline_request)
                 if not self.pipeline_request.is_http_1_1_keep_alive:
                     raise HttpProtocolException(
                         'Pipelined request is not keep-alive, will tear down request...',
@@ -290,6 +294,14 @@ class HttpWebServerPlugin(HttpProtocolHandlerPlugin):
             else httpProtocolTypes.HTTPS \
             if self.encryption_enabled() \
             else httpProtocolTypes.HTTP
+
+    def _route_for(self, path: bytes) -> HttpWebServerBasePlugin:
+        assert self.route
+        _, protocol = self._protocol
+        for route in self.routes[protocol]:
+            if route.match(text_(path)):
+                return self.routes[protocol][route]
+        return self.route
 
     def _try_route(self, path: bytes) -> bool:
         do_ws_upgrade, protocol = self._protocol
